@@ -59,6 +59,8 @@ package capnp
 //@     invariant forall(n, int(s1.size.PointerCount), func(k int) bool { return ptrSlotNull(p1, k) })
 //@   loop 3 "i < l1.Len()"
 //@     invariant 0 <= i
+//@   loop 4 "i < l1.Len()"
+//@     invariant 0 <= i
 //@   -- structs (checked where the struct case concludes equality): common data bytes equal, surplus
 //@   -- data bytes zero on whichever side is longer, surplus pointer slots of either side null
 //@   assert before "return true, nil#1" [C17] structdata: forall(0, minInt(int(p1.size.DataSize), int(p2.size.DataSize)), func(j int) bool { return dataOf(p1)[j] == dataOf(p2)[j] })
@@ -66,6 +68,9 @@ package capnp
 //@   assert before "return true, nil#1" [C17] structzero2: forall(int(p1.size.DataSize), int(p2.size.DataSize), func(j int) bool { return dataOf(p2)[j] == 0 })
 //@   assert before "return true, nil#1" [C17] structptrs1: forall(int(p2.size.PointerCount), int(p1.size.PointerCount), func(i int) bool { return ptrSlotNull(p1, i) })
 //@   assert before "return true, nil#1" [C17] structptrs2: forall(int(p1.size.PointerCount), int(p2.size.PointerCount), func(i int) bool { return ptrSlotNull(p2, i) })
+//@   -- the bytewise fast path is only legal for lists with byte-sized elements, and must compare
+//@   -- exactly the content of both lists (bit lists have no byte-sized elements)
+//@   assert before "return bytes.Equal(l1.seg.slice" [C17] fastpath: !isBit(l1) && !isBit(l2) && M(sz) == listBytes(l1) && M(sz) == listBytes(l2)
 //@   -- element sizes alone decide inequality only between two primitive lists (a primitive list is
 //@   -- otherwise read as a list of structs holding that value as sole field)
 //@   assert in "if l1.flags&isCompositeList == 0 && l2.flags" [C17] sizerule: l1.flags&isCompositeList == 0 && l2.flags&isCompositeList == 0 && l1.size != l2.size
